@@ -214,7 +214,8 @@ Step ==
                         ELSE (IF r.rest # << >> THEN {V("C04", l, "output ends inside a packet or with an unterminated maximal packet")} ELSE {})
                              \cup (IF Len(M) = 0 \/ M[1].seq0 # 0 THEN {V("C05", l, "greeting missing or not sequence id 0")} ELSE {})
                              \cup (LET w == Walk(mm, M, 1, 2, 1, {}) IN
-                                   w.viol \cup (IF w.mi # Len(M) + 1 THEN {V("C03", l, "surplus or missing messages after reassembly: " \o ToString(Len(M) + 1 - w.mi))} ELSE {}))
+                                   w.viol \cup (IF w.mi # Len(M) + 1 THEN {V("C03", l, "surplus or missing messages after reassembly: " \o ToString(Len(M) + 1 - w.mi)),
+                                                                         V("C04", l, "client-side reassembly yields messages the server did not mean to send (or misses some): " \o ToString(Len(M) + 1 - w.mi))} ELSE {}))
             IN /\ m' = [mm EXCEPT !.done = TRUE, !.n.pkts = Len(RSplit(mm.ob).pk), !.n.units = Len(M)]
                /\ viol' = viol \cup vres \cup vout
        [] OTHER -> UNCHANGED <<m, viol>>
